@@ -361,6 +361,17 @@ def run(ck, replay=None):
             fam = rng.choice(list(ALPHABET))
             pool = ALPHABET[fam] + rng.sample(allkeys, 2)
             seqs.append([rng.choice(pool) for _ in range(n)])
+        # two different solver OBJECTS used alternately (a, b, a): every ordered pair of the multigrid families (each family
+        # owns one object with its own depth / smoothing steps / coefficients), and a sample over all object families
+        mgf = [f for f in ALPHABET if f.startswith("mg-")]
+        for fa in mgf:
+            for fb in mgf:
+                if fa != fb:
+                    seqs.append([ALPHABET[fa][0], ALPHABET[fb][-1], ALPHABET[fa][0]])
+        objf = [f for f in ALPHABET if f.startswith(("mg-", "jacobi-", "tvd-"))]
+        pairs = [(fa, fb) for fa in objf for fb in objf if fa != fb and not (fa in mgf and fb in mgf)]
+        for fa, fb in rng.sample(pairs, min(len(pairs), 25 if quick else len(pairs))):
+            seqs.append([rng.choice(ALPHABET[fa]), rng.choice(ALPHABET[fb]), rng.choice(ALPHABET[fa])])
         # reordering independent calls
         for _ in range(5 if quick else 60):
             s = rng.sample(allkeys, 4)
